@@ -9,6 +9,9 @@ from props.c01 import effective_seg, compare_events
 
 VIOL_SENTINEL = b"<<VIOLATING-7f3a>>"
 SUFFIX_SENTINEL = b"<<SUFFIX-91c2>>"
+# what the violating frame carries may look like a template to whatever builds the error's description
+VIOL_PAYLOADS = [VIOL_SENTINEL, b"{error} {0} {} " + VIOL_SENTINEL, b'{"error": 1}' + VIOL_SENTINEL, b"%s %(x)s %d " + VIOL_SENTINEL,
+                 b"{" + VIOL_SENTINEL, VIOL_SENTINEL + b"}"]
 
 CLASSES = ["reserved_opcode", "reserved_bits", "fragmented_control", "control_too_long",
            "masked_frame", "nothing_to_continue", "expected_continuation", "length_2^63",
@@ -26,7 +29,7 @@ def violating_frames(v, deflate):
     cls = v["class"]
     a = v.get("a", 0)
     b = v.get("b", 0)
-    s = VIOL_SENTINEL
+    s = VIOL_PAYLOADS[v.get("sent", 0) % len(VIOL_PAYLOADS)]
     if cls == "reserved_opcode":
         op = [3, 4, 5, 6, 7, 0xB, 0xC, 0xD, 0xE, 0xF][a % 10]
         return B(op, s, fin=1 if op >= 8 else (b & 1))
@@ -196,6 +199,7 @@ class C04(Prop):
         viol = st.fixed_dictionaries({
             "class": st.sampled_from(CLASSES),
             "a": st.integers(0, 20), "b": st.integers(0, 20), "wide": st.booleans(),
+            "sent": gen.weighted([(2, st.just(0)), (1, st.integers(0, len(VIOL_PAYLOADS) - 1))]),
         })
         # "cont": a final continuation first - it completes a fragment that was wrongly accepted
         suffix = st.lists(st.sampled_from(["cont", "binary", "text", "ping", "close"]), max_size=3)
@@ -365,7 +369,16 @@ class C04(Prop):
         battery = [{"prefix": [text], "open": None, "viol": {"class": c, "a": 0, "b": 0, "wide": False}, "suffix": ["text"],
                     "seg": "whole", "deflate": 0, "client_closing": False}
                    for c in ("reserved_bits", "close_bad_utf8", "text_bad_utf8", "control_too_long", "expected_continuation")]
+        def templates():
+            # every violation class x every variant of each x payloads that look like format templates
+            for c in CLASSES:
+                for a in range(11):
+                    for sent in range(1, len(VIOL_PAYLOADS)):
+                        yield {"prefix": [text], "open": "text" if c in NEEDS_OPEN else None,
+                               "viol": {"class": c, "a": a, "b": a // 3, "wide": False, "sent": sent},
+                               "suffix": ["text"], "seg": "whole", "deflate": 0, "client_closing": False}
         return [Enumeration("all_65536_headers_x6_contexts", self.header_cases, exhaustive=True),
+                Enumeration("violating_payload_looks_like_a_template", templates, exhaustive=True),
                 after_every_prelude(battery), with_noise(battery), with_companion(battery)]
 
     def run_header(self, case):
